@@ -585,6 +585,9 @@ def _read_helpers(sim, m, a):
         vol = realized_volatility(ser, timedelta(minutes=3), timedelta(hours=1))
         sma = simple_moving_average(ser.astype(float), timedelta(minutes=4))
         out.append([str(vol.iloc[-1]), str(sma.iloc[-1])])
+        from ..worlds import helpers as LH
+
+        out.append(LH.call_helpers(LH.NAMES))  # the whole catalogue of module-level helpers (values unjudged)
         return out
 
     return call
